@@ -367,7 +367,7 @@ func (s *Server) abortTx(tx *Tx, reason string) {
 // CommittedRows returns the committed rows of a table (call from an observer
 // callback, or via Server.Read from outside).
 func (s *Server) CommittedRows(qname string) []*Row {
-	t := s.tables[qname]
+	t := s.tables[QName63(qname)]
 	if t == nil {
 		return nil
 	}
@@ -380,7 +380,7 @@ func (s *Server) CommittedRows(qname string) []*Row {
 	return rows
 }
 
-func (s *Server) TableByName(qname string) *Table { return s.tables[qname] }
+func (s *Server) TableByName(qname string) *Table { return s.tables[QName63(qname)] }
 
 func (s *Server) TableNames() []string {
 	var ns []string
